@@ -27,13 +27,21 @@ def run(ctx):
 def run2(ctx):
     q = ctx.quick
     behs = []
-    for cfg, part in (("MC_c53_a.cfg", "a"), ("MC_c53_b.cfg", "b")):
+    for cfg, part in (("MC_c53_a.cfg", "a"), ("MC_c53_b.cfg", "b"), ("MC_c53_c.cfg", "c")):
         if not ctx.want(part):
             continue
         mc = ctx.tlc("db", "Db", cfg, workers=8, timeout=1800)
         ctx.account(mc)
         ctx.log("%s: %d generated / %d distinct; %d witnesses" % (cfg, mc.generated, mc.distinct, len(mc.emitted)))
         behs += mc.emitted
+        st = mc.tagged.get("@@TS", [])
+        if st:
+            import random
+            rnd = random.Random(ctx.seed)
+            if q and len(st) > 500:
+                st = rnd.sample(st, 500)
+            behs += st
+            ctx.log("  + %d distinct post-Import state witnesses" % len(st))
     d = 20 if q else 30
     for w, off in ((0, 0), (5, 6)):
         if not ctx.want("sim"):
